@@ -134,6 +134,7 @@ func load(repo string) (*Ctx, error) {
 			}
 		}
 	}
+	curCtx = c
 	return c, nil
 }
 
